@@ -15,9 +15,9 @@ DUE = ["before_next=30", "next_hours=24"]
 RENEW = ["roa_reissue=60", "aspa_reissue=60", "bgpsec_reissue=60"]
 QUICK = [("default", 10, 16, []), ("maint", 6, 16, ["profile=maint"]), ("roll", 8, 18, ["profile=roll"]),
          ("due", 4, 14, DUE + ["profile=maint"]), ("renew", 4, 12, RENEW + ["profile=maint"])]
-THOROUGH = [("default", 240, 36, []), ("maint", 160, 36, ["profile=maint"]), ("roll", 200, 40, ["profile=roll"]),
-            ("rollmaint", 100, 40, ["profile=roll,maint"]), ("due", 100, 30, DUE + ["profile=maint"]),
-            ("renew", 80, 30, RENEW + ["profile=maint"])]
+THOROUGH = [("default", 180, 36, []), ("maint", 120, 36, ["profile=maint"]), ("roll", 140, 40, ["profile=roll"]),
+            ("rollmaint", 80, 40, ["profile=roll,maint"]), ("due", 70, 30, DUE + ["profile=maint"]),
+            ("renew", 50, 30, RENEW + ["profile=maint"])]
 
 ASSUME = [
     "resource sets are whole atoms (AS + /16 + /48) as the harness hands them out; rpki-rs block arithmetic is not modelled",
